@@ -22,7 +22,7 @@ TEXT = {
          "contract-based deductive verification (Verus) of the real list.rs bodies: rep invariant + abstract Seq view"),
  "C06": ("proof", "4.2", "Verus proves the frame postcondition 'Err => the four session component views are those on entry' on the real Context::interpret_with_settings (whole body incl. the on-demand currency block), with every callee modelled as havoc on its receiver. 'All histories' reduces to one call by induction over the history.",
          "contract-based deductive verification (Verus): frame postcondition on the real interpret_with_settings"),
- "C02": ("other", "4.2 / 4.14 / 4.18 / 4.20 / 4.21", "PARTIAL (three clauses). (1) A rejected input is rejected as a whole before any statement runs (prints nothing, interpreter untouched): postcondition of the real interpret_with_settings. (2) Constraint GENERATION and the store: Verus proves on the real type-checker text that a constraint is dropped only when it holds outright (two closed types that differ are refuted on the spot: Constraint::try_trivial_resolution against a spec function), that ConstraintSet::add keeps every constraint that is not trivially satisfied, and that addition / subtraction / conversion / ordering comparisons (the closure get_type_and_assert_equal_dtypes), == and !=, && and ||, unary minus / factorial / !, if-then-else and annotated definitions (_elaborate_inner) each demand exactly the equations the statement lists (equal operand types, Bool conditions, equal branches, annotated = deduced) or fail at once, that the type reported for a product / quotient / power (compile-time exponent) of closed dimension types is the product / quotient / power of the operand types (DType arithmetic uninterpreted THERE), and that exactly the literals 0, inf and NaN are dimension-polymorphic. (3) The dimension algebra itself (unit dtype, real bodies of DType::try_canonicalize - merge loop included -, from_factors, multiply, divide, power, inverse and their try_ variants): the result is in canonical form (sorted, each factor once, no zero exponent - what makes structural equality of types mean equal dimension) and denotes the product / quotient / power of the operands (exponent sums in Verus' real arithmetic); two genuine findings are recorded there (exponent overflow panics the type checker); the Negate and BinaryOperator arms of evaluate_const_expr compute exponents exactly or report an overflow (unit consteval). Added last to (2): the loops / blocks that constrain list elements, function-call arguments, the declared return type against the body, struct fields, and the type of a field access of a closed struct. NOT covered: solving the constraints (ConstraintSet::solve, Gaussian elimination over exponents), the dispatch on the operator inside the BinaryOperator arm, instantiation of generic functions and structs (fresh variables, substitution), the missing-fields check, and that the reported type equals dimensional analysis beyond closed types.",
+ "C02": ("other", "4.2 / 4.14 / 4.18 / 4.20 / 4.21", "PARTIAL (three clauses). (1) A rejected input is rejected as a whole before any statement runs (prints nothing, interpreter untouched): postcondition of the real interpret_with_settings. (2) Constraint GENERATION and the store: Verus proves on the real type-checker text that a constraint is dropped only when it holds outright (two closed types that differ are refuted on the spot: Constraint::try_trivial_resolution against a spec function), that ConstraintSet::add keeps every constraint that is not trivially satisfied, and that addition / subtraction / conversion / ordering comparisons (the closure get_type_and_assert_equal_dtypes), == and !=, && and ||, unary minus / factorial / !, if-then-else and annotated definitions (_elaborate_inner) each demand exactly the equations the statement lists (equal operand types, Bool conditions, equal branches, annotated = deduced) or fail at once, that the type reported for a product / quotient / power (compile-time exponent) of closed dimension types is the product / quotient / power of the operand types (DType arithmetic uninterpreted THERE), and that exactly the literals 0, inf and NaN are dimension-polymorphic. (3) The dimension algebra itself (unit dtype, real bodies of DType::try_canonicalize - merge loop included -, from_factors, multiply, divide, power, inverse and their try_ variants): the result is in canonical form (sorted, each factor once, no zero exponent - what makes structural equality of types mean equal dimension) and denotes the product / quotient / power of the operands (exponent sums in Verus' real arithmetic); applying a substitution to a dimension type (impl ApplySubstitution for DType, real body) replaces every factor by its image raised to the factor's power; two genuine findings are recorded there (exponent overflow panics the type checker); the Negate and BinaryOperator arms of evaluate_const_expr compute exponents exactly or report an overflow (unit consteval). Added last to (2): the loops / blocks that constrain list elements, function-call arguments, the declared return type against the body, struct fields, and the type of a field access of a closed struct. NOT covered: solving the constraints (ConstraintSet::solve, Gaussian elimination over exponents), the dispatch on the operator inside the BinaryOperator arm, instantiation of generic functions and structs (fresh variables, substitution), the missing-fields check, and that the reported type equals dimensional analysis beyond closed types.",
          "contract-based deductive verification (Verus): postcondition on interpret_with_settings; arm- and block-level extraction of the real elaborate_expression arms and of the constraint store against spec predicates over an abstract constraint log"),
  "C11": ("proof", "4.3", "Verus proves the real Quantity::{values_in_common_unit, eq, partial_cmp, partial_cmp_preserve_nan} and Unit::smaller_unit equal to spec functions written from the statement; symmetry of ==, antisymmetry of the ordering, NaN => NanOperand and trichotomy are Verus lemmas over those specs, using only IEEE-754 axioms that Kani proves on the real Number impls over all f64 bit patterns (thorough tier).",
          "contract-based deductive verification (Verus contracts + lemmas; Kani for the IEEE axioms on the real Number impls)"),
